@@ -352,6 +352,34 @@ def _event_and_flush_rules(ctx):
 
     def clears(n, fld):
         return any(ctx.facts.field_of(t, {}) == fld for t in stores_in(n)) and isinstance(n.ast, ast.Assign) and isinstance(n.ast.value, ast.List) and not n.ast.value.elts
+    # immediate dispatch (no batch open): a queued=True watcher runs with queueing enabled; when it raises, the
+    # guarded flush after the dispatch loop is skipped
+    for q in ("param.parameterized.Parameter.__set__", "param.parameterized.Parameter._trigger_event"):
+        df = ctx.repo.func(q)
+        dc = ctx.facts.cfg(df)
+        sites = [n for n in dc.live_nodes() for c in calls_in(n) if isinstance(c.func, ast.Attribute) and c.func.attr == "_call_watcher"]
+        if not sites:
+            raise AnalysisError("%s no longer dispatches through _call_watcher" % q)
+        for sn in sites:
+            seen, stack, leaks = set(), [t for l, t in sn.succ if l == "e"], False
+            while stack:
+                n = stack.pop()
+                if n.id in seen:
+                    continue
+                seen.add(n.id)
+                if any(isinstance(c.func, ast.Attribute) and c.func.attr == "_batch_call_watchers" for c in calls_in(n)) or clears(n, "_events"):
+                    continue
+                if n is dc.excexit:
+                    leaks = True
+                    break
+                stack.extend(t for l, t in n.succ)
+            if leaks:
+                ctx.fail("R05.h", df, sn, "immediate dispatch: when a queued=True watcher raises after having assigned other parameters, the events it queued are neither flushed nor dropped "
+                                          "(the flush after the dispatch loop is skipped): they are delivered at some later unrelated assignment",
+                         key=q + "::leftover-events-on-failure",
+                         input="queued watcher on a sets b then raises; p.a = 1 (no batch open) -> the event for b is delivered by the next unrelated assignment")
+            else:
+                ctx.ok("R05.h", df, sn, "the exceptional exit of the dispatch passes a flush / queue reset")
     for en in execs:
         bad = False
         for fld in ("_events", "_state_watchers"):
